@@ -10,7 +10,7 @@ LEVEL = "exploration"
 RULE = ("RPDO tables (every subset of the 4 channels x every synchronous/asynchronous assignment, enumerated) and random tables x mappings "
         "incl. dummy entries 0002h..0007h at every position, 24-bit mappings and objects of 5, 6 and 8 bytes (<= 8 bytes) x histories of RPDO frames (DLC >= mapped "
         "length), SYNCs (before / after / without reception, repeated), local writes, NMT changes, frames for disabled RPDOs and other "
-        "identifiers (incl. 80000000h, flag and extended bits on top of configured identifiers), COPdoReceive veto, reconfiguration through SDO "
+        "identifiers; dictionaries that list the static data types 0002h..0007h which the dummy entries name; (identifiers incl. 80000000h, flag and extended bits on top of configured identifiers), COPdoReceive veto, reconfiguration through SDO "
         "between reception and SYNC (refused COB-ID write while valid, invalidate / change type / re-map / re-validate); after EVERY step the whole object storage is compared with the reference model, plus "
         "COPdoReceive / COPdoSyncUpdate callbacks; non-trivial = history in which >= 1 RPDO was applied; distinct by (table, script)")
 ASSUMPTIONS = ["frames shorter than the mapped length are not generated", "mapped objects are not asynchronous TPDO sources",
@@ -56,6 +56,11 @@ def gen_world(rng, chans=None, sync_mask=None):
         cfg.add(S.Obj(0x2220, i, RW | P, "usr", "U", 3, 0, 0, 0, v))
         if sync_mask is None:
             pool.append((0x2220, i, 3))
+    # static data type entries 0002h..0007h listed in the dictionary (CiA 301 allows it; a read returns the bit length): a dummy mapping
+    # names the data type, not this entry - nothing is ever written there
+    if rng.random() < 0.35:
+        for d_ in rng.sample([2, 3, 4, 5, 6, 7], rng.randint(1, 6)):
+            cfg.add(var(d_, 0, RW, 4, DUMMY_BITS[d_]))
     if chans is None:
         chans = [c for c in range(4) if rng.random() < 0.65] or [rng.randrange(4)]
     rps = []
